@@ -9,15 +9,7 @@ def run(res, tier, seed):
     res.cov["rule"] = ("seeded products per route: shapes around multiples of 64 and the route thresholds, all content classes, "
                        "k in 0..10,16, cutoffs 0..2048, supplied/allocated destination, squaring route; distinct by "
                        "(route, shape class, content kinds, parameter)")
-    # T2: regenerate the Strassen-Winograd / mp schedules from the current strassen.c, mp.c; the generated file
-    # ends with sched_*_ok lemmas (vm_compute) that are re-checked as part of Properties_C01b
-    import subprocess, sys, os, vlib
-    t2 = subprocess.run([sys.executable, os.path.join(vlib.VERIF, "tools", "sched_extract.py"), "--repo", vlib.REPO,
-                         "--out", os.path.join(vlib.COQ, "Alg", "StrassenGen.v")], capture_output=True, text=True)
-    res.cov["t2"] = (t2.stdout + t2.stderr).strip()[-300:]
-    if t2.returncode != 0:
-        res.violation(vlib.write_replay("C01", "translator", "obligation: T2 (tools/sched_extract.py) refuses the current strassen.c / mp.c:\n"
-                                        + t2.stdout[-2000:] + t2.stderr[-2000:]), no_input=True)
+    # T2 (tools/sched_extract.py) regenerates Alg/StrassenGen.v from the current strassen.c / mp.c inside vlib.prove
     engine.proof_part(res, PROOFS)
     engine.corpus(res, "C01")
     n = 60 if tier == "quick" else 500
